@@ -7,15 +7,16 @@ import Mathlib.Analysis.SpecialFunctions.Gamma.Basic
 import Mathlib.Analysis.SpecialFunctions.Gaussian.GaussianIntegral
 import Mathlib.MeasureTheory.Integral.Gamma
 /-!
-Main lemmas behind the C15 and C17 property theorems (statements fixed by `Qats/Props/C15.lean`, `C17.lean`).
-All over ℝ, about the generated formulas `Qats.Gen.wb_*`, `gu_*`, `gm_*`, `ecdf_*`, `w2g_*`, `wfw_*`.
+Main lemmas behind the C15 property theorems (statements fixed by `Qats/Props/C15.lean`).
+All over ℝ, about the generated formulas `Qats.Gen.wb_*`, `gu_*`, `gm_*`, `ecdf_*`.
 The generated formulas are only ever accessed through the restating lemmas `*_eq` / `*_mirror` of
 `Qats/Lemmas/DistOps.lean`; the Weibull moment integral is in `Qats/Lemmas/DistWeibull.lean`.
+(The C17 lemmas about `w2g_*`, `wfw_*` are in `Qats/Lemmas/W2GMain.lean`.)
 -/
 namespace Qats.Dist
 open Qats Qats.Gen
 
--- The statements are fixed by `Qats/Props/C15.lean`, `C17.lean`; some of their hypotheses are not needed.
+-- The statements are fixed by `Qats/Props/C15.lean`; some of their hypotheses are not needed.
 set_option linter.unusedVariables false
 
 /-! ### Weibull (scale > 0, shape > 0, support x ≥ loc) -/
@@ -190,34 +191,5 @@ theorem ecdf_spec' (n i : ℝ) (hi : 1 ≤ i) (hin : i ≤ n) :
     ecdf_aux _ _ i n (by norm_num) (by norm_num) hi hin, ecdf_aux _ _ i n (by norm_num) (by norm_num) hi hin⟩
   · simpa using ecdf_aux 0 1 i n (by norm_num) (by norm_num) hi hin
   · simpa using ecdf_aux (1 / 2) 0 i n (by norm_num) (by norm_num) hi hin
-
-/-! ### C17: Gumbel from Weibull -/
-
-theorem gloc_is_quantile' (loc scale shape n : ℝ) (hn : 1 < n) :
-    w2g_loc loc n scale shape = wb_invcdf loc (1 - 1 / n) scale shape := by
-  rw [w2g_loc_eq, wb_invcdf_eq, sub_sub_cancel, one_div n, Real.log_inv, neg_neg]
-
-theorem gscale_is_inverse_intensity' (loc scale shape n : ℝ) (hs : 0 < scale) (hc : 0 < shape) (hn : 1 < n) :
-    w2g_scale n scale shape = 1 / (n * wb_pdf loc scale shape (w2g_loc loc n scale shape)) := by
-  rw [w2g_scale_eq, wb_pdf_eq, w2g_loc_eq]
-  have hn0 : 0 < n := by linarith
-  have hL : 0 ≤ Real.log n := (Real.log_pos hn).le
-  have e : (loc + scale * Real.log n ^ (1 / shape) - loc) / scale = Real.log n ^ shape⁻¹ := by
-    rw [one_div]; field_simp; ring
-  have e2 : (Real.log n ^ shape⁻¹) ^ (shape - 1) = Real.log n ^ ((shape - 1) / shape) := by
-    rw [← Real.rpow_mul hL]; congr 1; field_simp
-  rw [e, Real.rpow_inv_rpow hL hc.ne', e2, Real.exp_neg, Real.exp_log hn0]
-  congr 1
-  field_simp
-
-theorem entry_points_agree' (loc scale shape n : ℝ) (hs : 0 < scale) (hc : 0 < shape) (hn : 1 < n) :
-    wfw_loc n loc scale shape = w2g_loc loc n scale shape ∧ wfw_scale n scale shape = w2g_scale n scale shape := by
-  have hL : 0 ≤ Real.log n := (Real.log_pos hn).le
-  refine ⟨by rw [wfw_loc_eq, w2g_loc_eq], ?_⟩
-  rw [wfw_scale_eq, w2g_scale_eq]
-  have e : Real.log n ^ ((1 - shape) / shape) = (Real.log n ^ ((shape - 1) / shape))⁻¹ := by
-    rw [← Real.rpow_neg hL]; congr 1; ring
-  rw [e]
-  field_simp
 
 end Qats.Dist
